@@ -178,3 +178,99 @@ def single_field_class(f, ctx):
     src = "class T(Structure):\n    f = %s\n    _required = ['f']\n" % G.field_src(f)
     exec(src, ns)
     return ns["T"]
+
+
+# ------------------------------------------------------------------ generation of classes
+
+NAMES = ["a", "b", "c", "d", "e1", "f_2", "g"]
+
+
+def gen_class(rnd, name, ctx_names=(), n_fields=None, container_bias=0.0, immutable=False, max_depth=2,
+              allow_defaults=True, allow_hook=True):
+    """A class AST with 1..5 fields.  container_bias: probability that a field is a typed container."""
+    n = n_fields or rnd.randint(1, 5)
+    fields = []
+    for fname in NAMES[:n]:
+        if rnd.random() < container_bias:
+            f = gen_container(rnd, ctx_names, max_depth)
+        else:
+            f = G.gen_field(rnd, 0 if max_depth > 1 else 1, classes=ctx_names, max_depth=max_depth)
+        fd = {"name": fname, "field": f}
+        fields.append(fd)
+    names = [fd["name"] for fd in fields]
+    c = {"name": name, "fields": fields, "immutable": immutable}
+    r = rnd.random()
+    if r < 0.5:
+        c["required"] = sorted(rnd.sample(names, rnd.randint(0, len(names))))
+    c["additional"] = rnd.choice([False, False, True, None])
+    if rnd.random() < 0.3:
+        c["ignore_none"] = True
+    ints = [fd["name"] for fd in fields if fd["field"]["t"] == "num" and fd["field"]["k"] == "Integer"]
+    if allow_hook and rnd.random() < 0.35:
+        if len(ints) >= 2 and rnd.random() < 0.7:
+            a, b = rnd.sample(ints, 2)
+            c["hook"] = ["le", a, b]
+        else:
+            opt = [x for x in names if c.get("required") is not None and x not in c["required"]]
+            if opt:
+                c["hook"] = ["set", rnd.choice(opt)]
+    return c
+
+
+def gen_container(rnd, ctx_names=(), max_depth=2):
+    """A typed Array/Deque/Map declaration (the values of which are wrapper objects)."""
+    sub = lambda d=1: G.gen_field(rnd, d, classes=ctx_names, max_depth=max_depth)
+    scalar = lambda: G.gen_field(rnd, 9, classes=(), max_depth=0)
+    r = rnd.random()
+    if r < 0.40:
+        return {"t": "seqeach", "k": rnd.choice(["list", "list", "deque"]),
+                "item": scalar() if rnd.random() < 0.7 else sub(), "sz": G.gen_sz(rnd), "uniq": rnd.random() < 0.25}
+    if r < 0.55:
+        n = rnd.randint(1, 3)
+        return {"t": "seqpos", "k": rnd.choice(["list", "list", "deque"]), "items": [scalar() for _ in range(n)],
+                "sz": [None, None], "uniq": False, "additional": rnd.choice([None, False, True])}
+    if r < 0.62:
+        return {"t": "seqany", "k": rnd.choice(["list", "deque"]), "sz": G.gen_sz(rnd), "uniq": rnd.random() < 0.3}
+    if r < 0.85:
+        return {"t": "mapkv", "kf": G.gen_field(rnd, 9, max_depth=0, hashable=True),
+                "vf": scalar() if rnd.random() < 0.7 else sub(), "sz": G.gen_sz(rnd)}
+    if r < 0.90:
+        return {"t": "mapany", "sz": G.gen_sz(rnd)}
+    # nested typed containers (depth 2)
+    inner = {"t": "seqeach", "k": "list", "item": scalar(), "sz": G.gen_sz(rnd), "uniq": False}
+    if rnd.random() < 0.5:
+        return {"t": "seqeach", "k": rnd.choice(["list", "deque"]), "item": inner, "sz": [None, None], "uniq": False}
+    return {"t": "mapkv", "kf": {"t": "str"}, "vf": inner, "sz": [None, None]}
+
+
+def gen_kwargs(rnd, c, ctx, p_valid=1.0):
+    """Keyword arguments for class AST c: valid values for all required and some optional fields."""
+    kw = []
+    req = c.get("required")
+    for fd in c["fields"]:
+        needed = req is None or fd["name"] in req
+        if needed or rnd.random() < 0.6:
+            v = G.gen_valid(rnd, fd["field"], ctx.instances)
+            if rnd.random() > p_valid:
+                v = G.corrupt(rnd, fd["field"], v, ctx.instances)
+            kw.append((fd["name"], v))
+    return kw
+
+
+def realize_kwargs(kw, ctx):
+    return {k: G.unreify(v, ctx.classes) for k, v in kw}
+
+
+def make_valid_instance(rnd, c, ctx, tries=12):
+    """(kwargs, instance) with a real instance of the realised class, or None."""
+    cls = ctx.classes[c["name"]]
+    for _ in range(tries):
+        kw = gen_kwargs(rnd, c, ctx)
+        if c.get("hook") and c["hook"][0] == "set" and not any(k == c["hook"][1] for k, _ in kw):
+            fd = [f for f in c["fields"] if f["name"] == c["hook"][1]][0]
+            kw.append((fd["name"], G.gen_valid(rnd, fd["field"], ctx.instances)))
+        try:
+            return kw, cls(**realize_kwargs(kw, ctx))
+        except Exception:  # noqa
+            continue
+    return None
